@@ -20,29 +20,17 @@ theorem pin_analysis_vector_is_aligned_anchor : pin_analysis_vector_is_aligned =
 theorem pin_analysis_extract_linear_coefficient_anchor : pin_analysis_extract_linear_coefficient = "8356a37b6239dea1" := rfl
 /-- `extract_constant_term` (analysis.py) -/
 theorem pin_analysis_extract_constant_term_anchor : pin_analysis_extract_constant_term = "56af33ef128b1672" := rfl
-/-- `Problem.__init__` (problem.py) -/
-theorem pin_problem_Problem__init_anchor : pin_problem_Problem__init = "b8e52e8b31ddb817" := rfl
-/-- `Problem._invalidate_caches` (problem.py) -/
-theorem pin_problem_Problem_invalidate_caches_anchor : pin_problem_Problem_invalidate_caches = "d41655a6188482c1" := rfl
-/-- `Problem.minimize` (problem.py) -/
-theorem pin_problem_Problem_minimize_anchor : pin_problem_Problem_minimize = "9a4f17026f83d644" := rfl
-/-- `Problem.maximize` (problem.py) -/
-theorem pin_problem_Problem_maximize_anchor : pin_problem_Problem_maximize = "ab5e9d027ebfd2b7" := rfl
-/-- `Problem.subject_to` (problem.py) -/
-theorem pin_problem_Problem_subject_to_anchor : pin_problem_Problem_subject_to = "727808edd19107ef" := rfl
 /-- `Problem._validate_expression` (problem.py) -/
 theorem pin_problem_Problem_validate_expression_anchor : pin_problem_Problem_validate_expression = "c1cde4a100b85f9c" := rfl
 /-- `Problem._validate_constraint` (problem.py) -/
 theorem pin_problem_Problem_validate_constraint_anchor : pin_problem_Problem_validate_constraint = "86c81ec384d8e567" := rfl
-/-- `Problem._is_linear_problem` (problem.py) -/
-theorem pin_problem_Problem_is_linear_problem_anchor : pin_problem_Problem_is_linear_problem = "ef383bb402f0c8fd" := rfl
 /-- `Problem._only_simple_bounds` (problem.py) -/
 theorem pin_problem_Problem_only_simple_bounds_anchor : pin_problem_Problem_only_simple_bounds = "db45e87281100d80" := rfl
 /-- `Problem._has_equality_constraints` (problem.py) -/
 theorem pin_problem_Problem_has_equality_constraints_anchor : pin_problem_Problem_has_equality_constraints = "56258a35419a78c5" := rfl
 
 /-- every function the model of C08 transcribes (and no translator covers) is the one it was read from -/
-theorem anchors : pin_lp_solver_solve_lp = "244fed8ae6b2b560" ∧ pin_analysis_extract_all_linear_coefficients = "12263a09e6ffedff" ∧ pin_analysis_try_extract_fast_binop = "9a441977d7cc69cd" ∧ pin_analysis_vector_is_aligned = "b6d6839e542cf6b0" ∧ pin_analysis_extract_linear_coefficient = "8356a37b6239dea1" ∧ pin_analysis_extract_constant_term = "56af33ef128b1672" ∧ pin_problem_Problem__init = "b8e52e8b31ddb817" ∧ pin_problem_Problem_invalidate_caches = "d41655a6188482c1" ∧ pin_problem_Problem_minimize = "9a4f17026f83d644" ∧ pin_problem_Problem_maximize = "ab5e9d027ebfd2b7" ∧ pin_problem_Problem_subject_to = "727808edd19107ef" ∧ pin_problem_Problem_validate_expression = "c1cde4a100b85f9c" ∧ pin_problem_Problem_validate_constraint = "86c81ec384d8e567" ∧ pin_problem_Problem_is_linear_problem = "ef383bb402f0c8fd" ∧ pin_problem_Problem_only_simple_bounds = "db45e87281100d80" ∧ pin_problem_Problem_has_equality_constraints = "56258a35419a78c5" :=
-  ⟨pin_lp_solver_solve_lp_anchor, pin_analysis_extract_all_linear_coefficients_anchor, pin_analysis_try_extract_fast_binop_anchor, pin_analysis_vector_is_aligned_anchor, pin_analysis_extract_linear_coefficient_anchor, pin_analysis_extract_constant_term_anchor, pin_problem_Problem__init_anchor, pin_problem_Problem_invalidate_caches_anchor, pin_problem_Problem_minimize_anchor, pin_problem_Problem_maximize_anchor, pin_problem_Problem_subject_to_anchor, pin_problem_Problem_validate_expression_anchor, pin_problem_Problem_validate_constraint_anchor, pin_problem_Problem_is_linear_problem_anchor, pin_problem_Problem_only_simple_bounds_anchor, pin_problem_Problem_has_equality_constraints_anchor⟩
+theorem anchors : pin_lp_solver_solve_lp = "244fed8ae6b2b560" ∧ pin_analysis_extract_all_linear_coefficients = "12263a09e6ffedff" ∧ pin_analysis_try_extract_fast_binop = "9a441977d7cc69cd" ∧ pin_analysis_vector_is_aligned = "b6d6839e542cf6b0" ∧ pin_analysis_extract_linear_coefficient = "8356a37b6239dea1" ∧ pin_analysis_extract_constant_term = "56af33ef128b1672" ∧ pin_problem_Problem_validate_expression = "c1cde4a100b85f9c" ∧ pin_problem_Problem_validate_constraint = "86c81ec384d8e567" ∧ pin_problem_Problem_only_simple_bounds = "db45e87281100d80" ∧ pin_problem_Problem_has_equality_constraints = "56258a35419a78c5" :=
+  ⟨pin_lp_solver_solve_lp_anchor, pin_analysis_extract_all_linear_coefficients_anchor, pin_analysis_try_extract_fast_binop_anchor, pin_analysis_vector_is_aligned_anchor, pin_analysis_extract_linear_coefficient_anchor, pin_analysis_extract_constant_term_anchor, pin_problem_Problem_validate_expression_anchor, pin_problem_Problem_validate_constraint_anchor, pin_problem_Problem_only_simple_bounds_anchor, pin_problem_Problem_has_equality_constraints_anchor⟩
 
 end Optyx.Props.PinsC08
